@@ -150,6 +150,20 @@ def soundness_is_c01(repo, tier, seed):
     return out
 
 
+def formulation_uses_this_runs_inputs_only(repo, tier, seed):
+    """'That round's supplies, charges and caps': the model an Optimizer builds must not depend on what an earlier
+    Optimizer in the same process was given - C14's effect-scan obligations (nothing written at class / module level,
+    no class-body mutable mutated through an instance), re-run under this property."""
+    from contracts import C14
+    out = []
+    for fn in (C14.persistent_writes, C14.class_level_mutables):
+        for o in fn(repo, tier, seed):
+            o = dict(o)
+            o["name"] = o["name"].replace("C14/inventory/", "C02/this_runs_inputs_only/")
+            out.append(o)
+    return out
+
+
 def feed_round_shape(repo, tier, seed):
     """Feed-maximising round: within the demand ceilings and never rising from one month to the next - C01's
     feed / biofuel template lemmas, re-run under this property (they are part of what this round maximises over)."""
@@ -327,7 +341,7 @@ def solver_call(repo, tier, seed):
 
 
 CONTRACTS = []
-EXTRA = [completeness, soundness_is_c01, intake_caps, feed_round_shape, model_is_the_templates, pinned_consumption, solver_call]
+EXTRA = [completeness, soundness_is_c01, intake_caps, formulation_uses_this_runs_inputs_only, feed_round_shape, model_is_the_templates, pinned_consumption, solver_call]
 TRUSTED = [
     "CBC's reported optimum is the optimum of the model it was given, within gapRel (NOT decided: no contract within reach expresses a solver's correctness)",
     "PuLP operator semantics; floats as reals",
